@@ -403,10 +403,63 @@ func c03Escaping(c *fw.Ctx) {
 						prog = append(prog, model.Var("g1", model.Id("g")), model.ExprS(model.Asg("g", model.Nil())), model.Print(model.CallN("F", model.Num(8))),
 							model.Print(model.CallN("g1")), model.Print(model.CallN("g")), model.Print(model.CallN("viaCaller", model.Num(1))), model.Print(model.CallN("g1")))
 					}
-					_, _, skipped := judge(c, prog, judgeOpts{SigPrefix: "escaping-closure|" + site})
-					if !skipped {
-						c.R.States++
-						c.R.Transitions++
+					// ... at every nesting depth 0..12: the whole program inside that many blocks
+					for depth := 0; depth <= 12; depth++ {
+						_, _, skipped := judge(c, nestIn(prog, depth), judgeOpts{SigPrefix: "escaping-closure|" + site, NoTwice: depth > 0, NoPrompt: depth > 0})
+						if !skipped {
+							c.R.States++
+							c.R.Transitions++
+						}
+					}
+				}
+			}
+		}
+	}
+	// a closure that escapes from a block (reading / assigning the block's local), then sibling scopes
+	// of every kind come and go at the same level, then the closure is used: it still sees its own
+	// block's variable; at every nesting depth 0..12
+	siblings := map[string]func() []*model.N{
+		"none":          func() []*model.N { return nil },
+		"block-nested":  func() []*model.N { return []*model.N{model.Block(model.Var("a", model.Num(50)), model.Block(model.Print(model.Id("a"))))} },
+		"block-fun":     func() []*model.N { return []*model.N{model.Block(model.Fun("h", nil, model.Return(model.Num(0))), model.Print(model.CallN("h")))} },
+		"block-fun-var": func() []*model.N { return []*model.N{model.Block(model.Var("a", model.Num(60)), model.Fun("h", nil, model.Return(model.Id("a"))), model.Print(model.CallN("h")))} },
+		"if-nested":     func() []*model.N { return []*model.N{model.If(model.Bool(true), model.Block(model.Block(T("in-if"))), nil)} },
+		"for":           func() []*model.N { return []*model.N{model.For(model.Var("k", model.Num(0)), model.Bin("<", model.Id("k"), model.Num(2)), model.Asg("k", model.Bin("+", model.Id("k"), model.Num(1))), model.Block(model.Print(model.Id("k"))))} },
+		"while-nested":  func() []*model.N { return []*model.N{model.Var("w", model.Num(0)), model.While(model.Bin("<", model.Id("w"), model.Num(2)), model.Block(model.Block(model.ExprS(model.Asg("w", model.Bin("+", model.Id("w"), model.Num(1)))))))} },
+		"call":          func() []*model.N { return []*model.N{model.Fun("k2", []string{"a"}, model.Block(model.Return(model.Bin("*", model.Id("a"), model.Num(2))))), model.Print(model.CallN("k2", model.Num(4)))} },
+	}
+	sibNames := []string{"none", "block-nested", "block-fun", "block-fun-var", "if-nested", "for", "while-nested", "call"}
+	for _, s1 := range sibNames {
+		for _, s2 := range sibNames {
+			for _, act := range []string{"read", "assign"} {
+				for _, outerA := range []bool{false, true} {
+					if !c.Mine() {
+						continue
+					}
+					var cbody []*model.N
+					if act == "assign" {
+						cbody = append(cbody, model.ExprS(model.Asg("a", model.Bin("+", model.Id("a"), model.Num(1)))))
+					}
+					cbody = append(cbody, model.Return(model.Id("a")))
+					var prog []*model.N
+					prog = append(prog, model.Var("g", model.Nil()))
+					if outerA {
+						prog = append(prog, model.Var("a", model.Num(-1)))
+					}
+					prog = append(prog, model.Block(model.Var("a", model.Num(1)), model.Fun("inner", nil, cbody...), model.ExprS(model.Asg("g", model.Id("inner")))))
+					prog = append(prog, siblings[s1]()...)
+					prog = append(prog, model.Print(model.CallN("g")))
+					prog = append(prog, siblings[s2]()...)
+					prog = append(prog, model.Print(model.CallN("g")))
+					if outerA {
+						prog = append(prog, model.Print(model.Id("a")))
+					}
+					for depth := 0; depth <= 12; depth++ {
+						_, _, skipped := judge(c, nestIn(prog, depth), judgeOpts{SigPrefix: "escaping-closure|siblings-afterwards", NoTwice: depth > 0, NoPrompt: depth > 0})
+						if !skipped {
+							c.R.States++
+							c.R.Transitions++
+						}
 					}
 				}
 			}
@@ -414,4 +467,12 @@ func c03Escaping(c *fw.Ctx) {
 	}
 	c.R.Traces = c.R.States
 	_ = strings.Join
+}
+
+// nestIn puts a whole program inside depth blocks.
+func nestIn(prog []*model.N, depth int) []*model.N {
+	for d := 0; d < depth; d++ {
+		prog = []*model.N{model.Block(prog...)}
+	}
+	return prog
 }
